@@ -109,9 +109,11 @@ func ruleC03R1(c *Ctx) {
 					problems = append(problems, "a failed snapshot load reaches a return at "+c.Pos(r.Pos())+" without going back to the loop over the remaining snapshots")
 				}
 				ei := fnErrIdx(fn)
-				if st.Flags&fLoadedOK != 0 && ei >= 0 && st.Eval(r.Results[ei]) == TriYes {
-					// an error after a successful load is fine only if it stems from something else than a failed load;
-					// the rule only demands that a *failed load* alone cannot make the open fail
+				if lerr := errResult(call); lerr != nil && st.Flags&fLoadedOK != 0 && ei >= 0 && st.Eval(r.Results[ei]) != TriNo {
+					// the error of a skipped snapshot must not be what the open returns once another snapshot loaded
+					if st.Canon(r.Results[ei]) == st.Canon(lerr) || dependsOnStop(r.Results[ei], func(y ssa.Value) bool { return y == lerr }, func(y ssa.Value) bool { _, isCall := y.(*ssa.Call); return isCall }) && st.Eval(r.Results[ei]) == TriYes {
+						problems = append(problems, "the error of a skipped (unloadable) snapshot is returned at "+c.Pos(r.Pos())+" although another snapshot was loaded: open fails after a torn newest snapshot")
+					}
 				}
 			}
 			ex.OnInstr = func(in ssa.Instruction, st *PState) bool {
@@ -270,6 +272,21 @@ func ruleC03R2(c *Ctx) {
 		})
 		c.Check(limOK, "hashed range is [0, Len()-crcWidth) in "+name, c.Pos(limit.Pos()), "LimitReader(data.Reader(), Len()-crcWidth)", "the decoder's input is not limited to Len()-crcWidth of the loaded data")
 		rdOK := isLenMinusWidth(dataRead.Common().Args[1]) && isDataLen(dataRead.Common().Args[2], data)
+		// Len()-crcWidth may be negative for a torn file: the range read must sit behind a successful decode or a length guard
+		guardedRead := onSuccessEdge(readCall, dataRead)
+		eachInstr(fn, func(in ssa.Instruction) {
+			iff, ok := in.(*ssa.If)
+			if !ok || !iff.Block().Dominates(dataRead.Block()) {
+				return
+			}
+			if b, ok := iff.Cond.(*ssa.BinOp); ok && (b.Op == token.LSS || b.Op == token.LEQ || b.Op == token.GTR || b.Op == token.GEQ) {
+				if dependsOn(b.X, func(y ssa.Value) bool { return isDataLen(y, data) }) || dependsOn(b.Y, func(y ssa.Value) bool { return isDataLen(y, data) }) {
+					guardedRead = true
+				}
+			}
+		})
+		c.Check(guardedRead, "trailer read cannot underflow in "+name, c.Pos(dataRead.Pos()), "data.Read(Len()-crcWidth, ..) runs only after the decoder accepted the (Len()-crcWidth)-limited input, or behind a length comparison",
+			"the stored checksum is read at offset Len()-crcWidth without a preceding successful decode or length check: a torn snapshot file shorter than the checksum makes open panic (slice bounds out of range) instead of skipping it")
 		c.Check(rdOK, "trailer range is [Len()-crcWidth, Len()) in "+name, c.Pos(dataRead.Pos()), "data.Read(Len()-crcWidth, Len())", "the stored checksum is not read from the last crcWidth bytes")
 		// hashing reader wraps the limited reader
 		wrapOK := dependsOn(hashMk.Common().Args[0], func(y ssa.Value) bool { return y == ssa.Value(limit) })
